@@ -64,6 +64,7 @@ func runC05(c *core.Ctx) {
 		info := fn.Info()
 		// literals that emit and mention a limit
 		var lits []*ast.FuncLit
+		derivedFromLimit := limitDerivedVars(fn)
 		for _, fl := range findFuncLits(fn.Decl.Body) {
 			emits, mentionsLimit, nested := false, false, false
 			ast.Inspect(fl.Body, func(n ast.Node) bool {
@@ -74,7 +75,7 @@ func runC05(c *core.Ctx) {
 				if call, ok := n.(*ast.CallExpr); ok && p.CalleeName(info, call) == s.emit {
 					emits = true
 				}
-				if id, ok := n.(*ast.Ident); ok && strings.Contains(strings.ToLower(id.Name), "limit") {
+				if id, ok := n.(*ast.Ident); ok && (strings.Contains(strings.ToLower(id.Name), "limit") || derivedFromLimit[id.Name]) {
 					mentionsLimit = true
 				}
 				return true
